@@ -1,0 +1,37 @@
+//go:build verif
+
+package resolve
+
+import "sync/atomic"
+
+// VerifHookSet is installed by the verification harness (build tag verif only).
+// Yield is called at named points that lie between two critical sections; the harness may delay or
+// park the calling goroutine there. Event is an observation callback (it must return promptly).
+type VerifHookSet struct {
+	Yield func(point string, a, b int64)
+	Event func(name string, a, b int64)
+}
+
+var verifHooks atomic.Pointer[VerifHookSet]
+
+// SetVerifHooks installs (or, with nil, removes) the hook set.
+func SetVerifHooks(h *VerifHookSet) { verifHooks.Store(h) }
+
+func verifYield(point string, a, b int64) {
+	if h := verifHooks.Load(); h != nil && h.Yield != nil {
+		h.Yield(point, a, b)
+	}
+}
+
+func verifEvent(name string, a, b int64) {
+	if h := verifHooks.Load(); h != nil && h.Event != nil {
+		h.Event(name, a, b)
+	}
+}
+
+// VerifRegistrySizes reports the sizes of the subscription registries under the resolver lock.
+func (r *Resolver) VerifRegistrySizes() (triggers, subscriptionsByID, connections int) {
+	r.mu.Lock()
+	defer r.mu.Unlock()
+	return len(r.triggers), len(r.subscriptionsByID), len(r.subscriptionsByConnection)
+}
